@@ -48,8 +48,9 @@ def parse_spec(src: str) -> ast.AST:
 
 
 class SpecCtx:
-    def __init__(self, ex, old: State, cur: State, names: dict):
+    def __init__(self, ex, old: State, cur: State, names: dict, module=None):
         self.ex = ex
+        self.module = module
         self.old = old
         self.cur = cur
         self.names = dict(names)
@@ -252,7 +253,7 @@ def _lift_spec_calls(node, specfuns):
 def eval_nested(ex, st, src: str, names: dict) -> Val:
     """evaluate a specification expression from inside a spec function (macro-like spec definitions)"""
     outer = ex.spec
-    ctx = SpecCtx(ex, old=outer.old if outer is not None else st, cur=st, names=names)
+    ctx = SpecCtx(ex, old=outer.old if outer is not None else st, cur=st, names=names, module=getattr(outer, "module", None))
     out = ctx._run(lambda s2: ctx.ev(parse_spec(src), s2), st)
     if outer is not None:
         outer.lemmas.extend(ctx.lemmas)
